@@ -2,27 +2,27 @@ SPECIFICATION Spec
 CONSTANTS
   GraphRels = {"pagetree", "fields", "structtree", "nametree", "numtree", "xobjects"}
   FunRels = {"actionnext", "beads", "xrefprev", "xrefstmprev", "xrefstm", "extends", "length", "refchain", "refcontents", "refkids", "refannots", "pageparent", "fieldparent", "colorspace", "function", "smask", "irt"}
-  MaxN = 3
+  MaxN = 4
   SymN = 3
-  GraphMod = 2
+  GraphMod = 16
   Decors = {"none", "dangling", "wrong", "null"}
   DecorMod = 4
-  FunMod = 2
+  FunMod = 4
   OutlineNs = {1, 2}
-  Outline1Mod = 3
-  OutlineMod = 24
+  Outline1Mod = 1
+  OutlineMod = 4
   DepthRels = {"pagetree", "fields", "structtree", "nametree", "numtree", "xobjects", "actionnext", "beads", "xrefprev", "extends", "length", "refchain", "pageparent", "fieldparent", "colorspace", "function", "smask", "irt", "outlinefirst", "outlinenext"}
   SynKinds = {"array", "dict", "mixed", "parens", "contentarray", "contentq", "contentdict"}
   Limit = 100
-  BigDepth = 10000
+  BigDepth = 100000
   HugeDepth = 1000000
   MutTargets = {"ttf", "certpem", "certder", "p7c", "pkcs7", "json", "csv"}
   MutOps = {"trunc", "len0", "lenmax", "lenplus1", "lenminus1"}
-  MutK = 12
-  PdfBases = {"classic", "objstm", "encrypted"}
+  MutK = 60
+  PdfBases = {"classic", "objstm", "encrypted", "signed", "form"}
   PdfK = 2
-  PdfMod = 6
-  TruncK = 12
+  PdfMod = 2
+  TruncK = 40
   Seed = 1
   Emit = TRUE
 INVARIANTS StepBound ExpandOnce GuardedDepth Progress EmitCase
